@@ -67,6 +67,13 @@ def check(cfg, lines):
         elif kind in ("bad_const_index", "bad_policy"):
             if not crash or touched:
                 v("C20", "invalid configuration (%s on node %s) was simulated: crash=%s, movements of that node=%d" % (kind, fn, crash, len(touched)))
+        elif kind == "bad_stream_index":
+            # the first fault_after items are routed normally; the answer outside [0, n) must raise
+            routed = [e for e in ev if e[0] == "P" and ecfg[e[2]]["src"] == fn]
+            drew = len([e for e in ev if e[0] == "W" and e[1] == fn and e[2] == 2])
+            if drew > cfg.get("fault_after", 0) and not crash:
+                v("C15", "node %s obeyed an out-of-range selector answer instead of rejecting it (%d selections drawn, %d items routed)" % (fn, drew, len(routed)))
+                v("C20", "out-of-range selector answer on node %s was silently simulated" % fn)
         elif kind == "negative_delay":
             if not crash and touched:
                 v("C20", "negative delay on node %s was silently simulated" % fn)
@@ -113,7 +120,7 @@ def check(cfg, lines):
             if place.get(i) != ("node", n) or place.get(pal) != ("node", n):
                 v("C03", "item %d packed into pallet %d by node %d while they are at %s / %s" % (i, pal, n, place.get(i), place.get(pal)))
             place[i] = ("pal", pal)
-            packed[pal].append((i, pulled_via.get((n, i))))
+            packed[pal].append((i, pulled_via.get((n, i)), n))
             if i in held[n]:
                 held[n].remove(i)
         elif k == "P":
@@ -255,10 +262,9 @@ def check(cfg, lines):
     for n, nc in enumerate(ncfg):
         if nc["kind"] == "combiner":
             for (tp, pal, ed) in push_log[n]:
-                got = Counter(nc["ins"].index(e2) for (i2, e2) in packed[pal] if e2 in nc["ins"])
+                got = Counter(nc["ins"].index(e2) for (i2, e2, pk) in packed[pal] if pk == n and e2 in nc["ins"])
                 exp = Counter({k: q for k, q in enumerate(nc["recipe"]) if k >= 1 and q > 0 and k < len(nc["ins"])})
-                foreign = [i2 for (i2, e2) in packed[pal] if e2 not in nc["ins"]]
-                if got != exp and not foreign:
+                if got != exp:
                     v("C16", "combiner %d pushed pallet %d with items per in-edge %s, recipe %s" % (n, pal, dict(got), dict(exp)))
                 if pulled_via.get((n, pal)) != nc["ins"][0]:
                     v("C16", "combiner %d pushed pallet %d that did not come from its first in-edge" % (n, pal))
@@ -268,7 +274,7 @@ def check(cfg, lines):
             pulled = [i2 for (tp, i2, ed) in pull_log[n]]
             emitted = Counter(i2 for (i2, _) in seq)
             for pal in pulled:
-                content = [i2 for (i2, _) in packed[pal]]
+                content = [i2 for (i2, _, _) in packed[pal]]
                 for x in content + [pal]:
                     done = emitted[x] + (1 if (n, x) in t_disc else 0)
                     if done > 1:
@@ -280,7 +286,7 @@ def check(cfg, lines):
                     v("C16", "splitter %d emitted the content of pallet %d out of order: %s" % (n, pal, em))
                 if pal in pos and any(x not in pos and (n, x) not in t_disc for x in content):
                     v("C16", "splitter %d emitted pallet %d before all of its items" % (n, pal))
-            extra = [x for x in emitted if x not in pulled and not any(x in [i2 for (i2, _) in packed[p_]] for p_ in pulled)]
+            extra = [x for x in emitted if x not in pulled and not any(x in [i2 for (i2, _, _) in packed[p_]] for p_ in pulled)]
             if extra:
                 v("C16", "splitter %d emitted items %s that it never received" % (n, extra))
     # ---------------- C08 / C09 / C15: per node timing and routing
@@ -332,7 +338,7 @@ def check(cfg, lines):
             delays = nc["delays"]
             for k, (t, pal, ed) in enumerate(pull_log[n]):
                 d = delays[k % len(delays)]
-                content = [i2 for (i2, _) in packed[pal]] + [pal]
+                content = [i2 for (i2, _, _) in packed[pal]] + [pal]
                 firsts = [tp for (tp, i2, e2) in push_log[n] if i2 in content] + [t_disc[(n, x)] for x in content if (n, x) in t_disc]
                 if firsts and min(firsts) < t + d:
                     v("C08", "splitter %d emitted part of pallet %d at %s, before pull time %s + delay %s" % (n, pal, min(firsts), t, d))
@@ -341,7 +347,7 @@ def check(cfg, lines):
             pallets = [(t, pal) for (t, pal, ed) in pull_log[n] if ed == nc["ins"][0]]
             for k, (t, pal) in enumerate(pallets):
                 d = delays[k % len(delays)]
-                ing = [tt for (tt, i2, e2) in pull_log[n] if any(i2 == x for (x, _) in packed[pal])]
+                ing = [tt for (tt, i2, e2) in pull_log[n] if any(i2 == x and pk == n for (x, _, pk) in packed[pal])]
                 ready = max([t] + ing) + d
                 outs = [tp for (tp, i2, e2) in push_log[n] if i2 == pal]
                 if outs and outs[0] < ready:
